@@ -163,6 +163,10 @@ class Run:
                 if wc.get("derived") and self.definer[wc["cid"]] == "near":
                     self.far[wc["space"]].cells[execlib.cname(wc)].is_cached = op[2]   # keep the fallback definition in step
                 out = ["ok"]
+            elif t == "setallow":
+                self.w["cells"][op[1]]["allow_none"] = op[2]
+                self.def_cells(self.w["cells"][op[1]]).allow_none = op[2]
+                out = ["ok"]
             elif t == "setref":
                 r = self.w["refs"][op[1]]
                 owner = self.m if r["space"] is None else self.spaces[r["space"]]
